@@ -65,6 +65,39 @@ pub struct Emulator<H: Host> {
 }
 
 impl<H: Host> Emulator<H> {
+    /// Verification hook: mutable access to the CPU
+    #[cfg(rustzx_verif)]
+    pub fn verif_cpu(&mut self) -> &mut Z80 {
+        &mut self.cpu
+    }
+
+    /// Verification hook: T-states elapsed since the start of the current frame
+    #[cfg(rustzx_verif)]
+    pub fn verif_frame_clocks(&self) -> usize {
+        self.controller.frame_clocks
+    }
+
+    /// Verification hook: lets `clocks` T-states pass without executing instructions
+    /// (the devices see it as one long internal CPU delay)
+    #[cfg(rustzx_verif)]
+    pub fn verif_wait(&mut self, clocks: usize) {
+        use rustzx_z80::Z80Bus;
+        self.controller.wait_internal(clocks);
+    }
+
+    /// Verification hook: value of the 128K paging latch and whether paging is still enabled
+    #[cfg(rustzx_verif)]
+    pub fn verif_paging(&self) -> (u8, bool) {
+        self.controller.verif_paging()
+    }
+
+    /// Verification hook: CPU write through the bus (no time passes)
+    #[cfg(rustzx_verif)]
+    pub fn verif_bus_write(&mut self, addr: u16, value: u8) {
+        use rustzx_z80::Z80Bus;
+        self.controller.write_internal(addr, value);
+    }
+
     /// Constructs new emulator
     /// # Arguments
     /// `settings` - emulator settings
